@@ -478,7 +478,7 @@ func init() {
 	Register(&Prop{
 		ID:    "C10",
 		Title: "No query, option set or input can crash or hang the host process",
-		Rule: "every case runs in a child process. Classes: valid = the 33 wide constructs under all 2^3 option sets; mutated = 1-3 token mutations " +
+		Rule: "every case runs in a child process. Classes: valid = the 40 wide constructs under all 2^3 option sets; mutated = 1-3 token mutations " +
 			"(delete, duplicate, swap, insert one of 60 keywords/brackets/quotes/qualifiers, replace, truncate) of a valid query; bytes = strings over an " +
 			"alphabet of SQL fragments, quotes, brackets, NUL, invalid UTF-8; hostile = 134 curated constants (NATURAL/CROSS/USING joins, chained UNION, " +
 			"self- and mutually-referencing CTEs, unbalanced brackets/quotes, out-of-range FROM paths, wrong-typed function arguments, qualifiers on " +
